@@ -11,7 +11,8 @@ or `Net.onInboundChunk` → `udpConnMap.find` → `UDPConn.onInboundChunk` → `
   Go loop drains the queue in one call; other goroutines can push in the windows where the router
   drops its mutex, so "one chunk" is the atomic unit.
 * Chunks carry ghost fields that the code does not have (`id` = number of the write that created it,
-  `origin`, `odst` = destination as written, `hops` = containers visited) for the theorems.
+  `origin`, `odst` = destination as written, `hops` = containers visited, `route` = the same with
+  the destination carried on entry) for the theorems.
 * NAT translation is Model/Nat.lean (C02/C03), time is an integer passed to it.
 -/
 namespace TV.Vnet
@@ -31,6 +32,7 @@ structure Chunk where
   dst : Addr
   payload : List UInt8
   hops : List Ctr
+  route : List (Ctr × Addr) := []   -- ghost: every container entered, with the destination the chunk carried then
 deriving Repr, DecidableEq
 
 inductive Node
@@ -113,7 +115,7 @@ def Net.pushTo (n : Net) (r : Nat) (c : Chunk) : Net :=
   | some rt =>
     if !n.started then n.drop c (.notStarted r)
     else if rt.cap > 0 ∧ rt.queue.length ≥ rt.cap then n.drop c (.queueFull r)
-    else n.modRouter r (fun rt => { rt with queue := rt.queue ++ [{ c with hops := c.hops ++ [.queue r] }] })
+    else n.modRouter r (fun rt => { rt with queue := rt.queue ++ [{ c with hops := c.hops ++ [.queue r], route := c.route ++ [(.queue r, c.dst)] }] })
 
 /-- a socket covers an address: same port, and the socket is bound to that IP or to the wildcard -/
 def SockM.covers (s : SockM) (a : Addr) : Bool := !s.closed && s.port == a.port && (s.ip == 0 || s.ip == a.ip)
@@ -135,7 +137,7 @@ def Net.deliver (n : Net) (h : Nat) (c : Chunk) : Net :=
       | some sk =>
         if sk.inbox.length ≥ inboxCap then n.drop c (.inboxFull h s)
         else
-          let c' := { c with hops := c.hops ++ [.inbox h s] }
+          let c' := { c with hops := c.hops ++ [.inbox h s], route := c.route ++ [(.inbox h s, c.dst)] }
           n.modHost h (fun hm => { hm with socks := hm.socks.modify s (fun sk =>
             { sk with inbox := sk.inbox ++ [c'], delivered := sk.delivered ++ [c'] }) })
 
@@ -160,7 +162,7 @@ def Net.write (n : Net) (h s : Nat) (dst : Addr) (payload : List UInt8) : Net ×
       | none => (n, .noSourceIP)
       | some ip =>
         let c : Chunk := { id := n.written.length, origin := (h, s), odst := dst, src := { ip := ip, port := sk.port },
-                           dst := dst, payload := payload, hops := [] }
+                           dst := dst, payload := payload, hops := [], route := [] }
         let n1 : Net := { n with written := n.written ++ [({ origin := (h, s), dst := dst, payload := payload } : Written)] }
         if isLoopback dst.ip then (n1.deliver h c, .ok)
         else
